@@ -122,6 +122,10 @@ def group_by_until_(
                         return
 
                     observer.on_next(group)
+                    if group_disposable.is_disposed:
+                        # unsubscribed from inside that on_next
+                        return
+
                     sad = SingleAssignmentDisposable()
                     group_disposable.add(sad)
 
@@ -146,6 +150,9 @@ def group_by_until_(
                     sad.disposable = duration.pipe(
                         ops.take(1),
                     ).subscribe(on_next, on_error, on_completed, scheduler=scheduler)
+
+                if group_disposable.is_disposed:
+                    return
 
                 try:
                     element = element_mapper_(x)
